@@ -53,6 +53,11 @@ func (s *schedReader) Read(p []byte) (int, error) {
 	if len(s.sched) > 0 {
 		want = s.sched[s.calls%len(s.sched)]
 	}
+	if want < 0 {
+		// an empty read: (0, nil)
+		s.calls++
+		return 0, nil
+	}
 	if want == 0 {
 		want = 1
 	}
